@@ -289,13 +289,16 @@ def h_divmod(ctx: Any) -> None:
     ctx.cover('done')
 
 
+GRID = [100, 3]      # numerators < GRID[0], denominators 10^e with e < GRID[1] (thorough: 400, 4)
+
+
 def _number(ctx: Any, tag: str) -> Any:
     """a chip amount of one of the numeric types pokerkit documents (int, float, Fraction, Decimal)."""
     from decimal import Decimal
     from fractions import Fraction
     kind = ctx.choice(f'{tag}_type', 4)
-    p = ctx.choice(f'{tag}_p', 100)
-    e = ctx.choice(f'{tag}_e', 3) if kind else 0
+    p = ctx.choice(f'{tag}_p', GRID[0])
+    e = ctx.choice(f'{tag}_e', GRID[1]) if kind else 0
     if kind == 0:
         return p
     if kind == 1:
@@ -305,7 +308,9 @@ def _number(ctx: Any, tag: str) -> Any:
     return p / 10 ** e
 
 
-def h_divmod_types(ctx: Any) -> None:
+def h_divmod_types(ctx: Any, grid: Any = None) -> None:
+    if grid:
+        GRID[:] = grid
     from pokerkit.utilities import divmod as pk_divmod
     a = _number(ctx, 'a')
     d = ctx.choice('d', 9) + 1
@@ -315,10 +320,12 @@ def h_divmod_types(ctx: Any) -> None:
     ctx.cover('done')
 
 
-def h_clean_types(ctx: Any, count: int) -> None:
+def h_clean_types(ctx: Any, count: int, grid: Any = None) -> None:
     """a single number of every numeric type means that number for every player; the same values as list, tuple,
     mapping give the same layout; and a State built from the scalar equals the one built from the explicit list."""
     from pokerkit.utilities import clean_values
+    if grid:
+        GRID[:] = grid
     C.native_hands()
     C.set_deck_order('identity')
     v = _number(ctx, 'v')
@@ -416,10 +423,24 @@ def jobs(tier: str, seed: int) -> list[dict]:
     out.append(dict(name='hand-forms', fn='h_hand_forms', traced=False, params={}, budget_s=B, must_cover=['done', 'hand']))
     out.append(dict(name='deal-forms', fn='h_deal_forms', traced=False, params={}, budget_s=B, must_cover=['done']))
     out.append(dict(name='divmod', fn='h_divmod', params={}, budget_s=B, must_cover=['done']))
-    out.append(dict(name='divmod/numeric-types', fn='h_divmod_types', traced=False, params={}, budget_s=B, must_cover=['done']))
-    for n in (2, 3):
-        out.append(dict(name=f'clean/numeric-types/n{n}', fn='h_clean_types', traced=False, params=dict(count=n), budget_s=B,
-                        must_cover=['done', 'state']))
+    grid = None if tier == 'quick' else [400, 4]
+    out.append(dict(name='divmod/numeric-types', fn='h_divmod_types', traced=False, params=dict(grid=grid),
+                    budget_s=B if tier == 'quick' else 1500, must_cover=['done']))
+    for n in ((2, 3) if tier == 'quick' else (2, 3, 4, 6)):
+        out.append(dict(name=f'clean/numeric-types/n{n}', fn='h_clean_types', traced=False, params=dict(count=n, grid=grid),
+                        budget_s=B if tier == 'quick' else 1500, must_cover=['done', 'state']))
+    if tier == 'thorough':
+        for n in (5, 6):
+            out.append(dict(name=f'clean/number/n{n}', fn='h_clean_number', params=dict(count=n), budget_s=B, must_cover=['done']))
+            out.append(dict(name=f'clean/map/n{n}', fn='h_clean_map', params=dict(count=n), budget_s=B, must_cover=['done']))
+            for L in (0, n - 1, n, n + 1):
+                out.append(dict(name=f'clean/seq/n{n}/len{L}', fn='h_clean_seq', params=dict(count=n, length=L), budget_s=B,
+                                must_cover=['done']))
+        for form in ('stacks-number', 'stacks-list', 'stacks-map', 'neg-keys', 'special-antes'):
+            out.append(dict(name=f'ctor-equiv/n4/{form}', fn='h_ctor_equiv', params=dict(n=4, form=form), budget_s=900,
+                            must_cover=['done']))
+        out.append(dict(name='validation/n4', fn='h_validation', params=dict(n=4), budget_s=900, must_cover=['rejected', 'accepted']))
+        out.append(dict(name='rawtext/len3', fn='h_rawtext', params=dict(length=3), budget_s=1500, must_cover=['parsed']))
     out.append(dict(name='rake/smt', kind='native', fn='smt_rake', params={}, budget_s=B))
     out.append(dict(name='rake/translator-validation', kind='native', fn='smt_translator_validation',
                     params={}, budget_s=60))
